@@ -648,6 +648,18 @@ def obligations(tier):
         for nz, T in ((1, 8), (2, 6), (3, 4), (2, 10)):
             obs.append(ReadWind(nz, T, 'one'))
         obs.append(ReadWind(2, 3, 'one', False))
+    # file-header span of the gridded writer and the record walk of the
+    # lateral-boundary writer (obligations of checks/c08.py: header counts
+    # and dates must match the content; bytes walked by an independent
+    # record parser)
+    from . import c08
+    for et in (True, False):
+        o = c08.TimeRoundTrip(2004, 2, et)
+        o.name = 'writer-header-span[uamiv,' + o.name.split('[', 1)[1]
+        obs.append(o)
+    o = c08.LatBndTimeRoundTrip(2004, 2)
+    o.name = 'writer-walk[lateral_boundary,2004,T=2]'
+    obs.append(o)
     # met writers -> reference layout (the same obligations C08 uses)
     from . import metwrite
     for o in metwrite.obligations(tier):
